@@ -80,4 +80,4 @@ def check(ctx: Ctx) -> None:
             b = _call(model, sink.qualname, lambda it: [outcome, it.enum(f"ahbicht.models.enums.{icls}", iname), False])
             ctx.count()
             ctx.ob("C14.rows", f"{iname},{outcome}", a == b, f"the flag changes the status of {iname} with outcome {outcome}: {a} vs {b}", file=FILE, function=sink.qualname)
-    valsweep.report(ctx, ("C14.rewrite", "C13.tree"))
+    ctx.soft(lambda: valsweep.report(ctx, ("C14.rewrite", "C13.tree")))
